@@ -87,9 +87,10 @@ Definition build_event (env : renv) (c : rcfg) (ce : id) : option (list (id * li
   end.
 
 Definition m_request (env : renv) (c : rcfg) (ce : id) : rout :=
+  (* whether the event is enabled does not matter for a request (D47): enabling controls the reports sent spontaneously *)
   match rlookup ce (links c) with
-  | Some (_, true) => match build_event env c ce with Some rpt => RReport ce rpt | None => RAbort end
-  | _ => RReport ce []
+  | Some _ => match build_event env c ce with Some rpt => RReport ce rpt | None => RAbort end
+  | None => RReport ce []
   end.
 Definition m_trigger (env : renv) (c : rcfg) (ce : id) : rout :=
   match rlookup ce (links c) with
